@@ -158,7 +158,7 @@ def build_coq():
             rc, o = sh(["coq_makefile", "-f", "_CoqProject", "-o", "Makefile.coq"], cwd=COQ)
             if rc != 0:
                 return False, o
-        rc, o = sh(["make", "-f", "Makefile.coq", "-j16"], cwd=COQ, timeout=3000)
+        rc, o = sh(["make", "-k", "-f", "Makefile.coq", "-j16"], cwd=COQ, timeout=3000)
         return rc == 0, o
 
 
@@ -218,15 +218,30 @@ def check_proofs(pid, tier="quick"):
         res["log"] = "forbidden constructs: " + "; ".join(g)
         return res
     ok, o = build_coq()
+    build_log = ""
     if not ok:
-        res["log"] = o[-4000:]
-        m = re.search(r'File "\./([^"]+)", line (\d+)', o)
-        res["broken_at"] = m.group(0) if m else "build"
-        return res
+        # the build keeps going after an error (make -k).  A file that failed has its stale object removed, so that
+        # nothing can be checked against an outdated version of it; this property is broken only if its own file, or
+        # anything that file depends on, is among the casualties - decided by compiling the property file itself
+        failed = re.findall(r"\*\*\* \[Makefile\.coq:\d+: ([\w/]+)\.vo\] Error", o)
+        if not failed:                      # not a compile error of a .v file (translator, makefile generation ...)
+            res["log"] = o[-4000:]
+            m = re.search(r'File "\./([^"]+)", line (\d+)', o)
+            res["broken_at"] = m.group(0) if m else "build"
+            return res
+        for f in failed:
+            for ext in (".vo", ".glob", ".vok", ".vos"):
+                try:
+                    os.remove(os.path.join(COQ, f + ext))
+                except OSError:
+                    pass
+        build_log = o
+        res["other_failures"] = sorted(set(failed))
     rc, o = sh(["coqc", "-Q", ".", "Verif", "-w", "-notation-overridden", "Properties/%s.v" % pid], cwd=COQ, timeout=1800)
     if rc != 0:
-        res["log"] = o[-4000:]
-        res["broken_at"] = "Properties/%s.v" % pid
+        res["log"] = (o[-2500:] + "\n--- build log ---\n" + build_log[-2500:]) if build_log else o[-4000:]
+        m = re.search(r'File "\./([^"]+)", line (\d+)', build_log + o)
+        res["broken_at"] = m.group(0) if (m and build_log) else "Properties/%s.v" % pid
         return res
     # Print Assumptions output: either "Closed under the global context" or "Axioms:" blocks
     blocks = re.split(r"(?=Closed under the global context|Axioms:)", o)
@@ -264,10 +279,13 @@ def run_model(runner_exe, cases, out, timeout):
     """evaluate the extracted model on every case line; large case files are dealt round-robin over up to 16 runner
     processes (the runner handles one line at a time, lines are independent)"""
     lines = open(cases, "rb").read().splitlines(keepends=True)
+    # the extracted model recurses deeply over long lists (hence the large stack); every minor collection scans that
+    # stack, so a large minor heap (16M words) makes the evaluation several times faster
+    renv = dict(os.environ, OCAMLRUNPARAM="s=16M")
     nsh = max(1, min(16, len(lines)))
     if nsh == 1:
         with open(cases, "rb") as fin:
-            return sh([runner_exe], stdin=fin, timeout=timeout, big_stack=True)
+            return sh([runner_exe], stdin=fin, timeout=timeout, big_stack=True, env=renv)
     procs = []
     for k in range(nsh):
         sp = os.path.join(out, "cases.%d.tsv" % k)
@@ -275,7 +293,7 @@ def run_model(runner_exe, cases, out, timeout):
             f.writelines(lines[k::nsh])
         fin = open(sp, "rb")
         fo = open(os.path.join(out, "model.%d.tsv" % k), "wb")
-        procs.append((subprocess.Popen([runner_exe], stdin=fin, stdout=fo, stderr=subprocess.STDOUT, preexec_fn=_big_stack), fin, fo, sp))
+        procs.append((subprocess.Popen([runner_exe], stdin=fin, stdout=fo, stderr=subprocess.STDOUT, preexec_fn=_big_stack, env=renv), fin, fo, sp))
     deadline = time.time() + timeout
     rc, outs = 0, []
     for k, (pr, fin, fo, sp) in enumerate(procs):
